@@ -421,7 +421,9 @@ def rules(tier):
             # C09-ca idea on the PRINCE entry script
             ('C17.R19', _shared_rule('plumbing', 'no_unflushed_exit')),
             # --size / --all_lower reach the generator under their own keys
-            ('C17.R20', _shared_rule('plumbing', 'option_round_trip'))] + _loader_bundle() + []
+            ('C17.R20', _shared_rule('plumbing', 'option_round_trip')),
+            # C17-da: the -o word list opened for appending
+            ('C17.R21', _shared_rule('plumbing', 'writers_truncate'))] + _loader_bundle() + []
 
 
 META = {
